@@ -89,6 +89,17 @@ def judge(res, label, c, data, anc, cycles, refocus, data_idx, anc_idx):
             res.fail('C09-measurement-count', '%s %s: measured qubits %r, protocol expects per qubit %r' % (label, variant, qubits, {q: len(v) for q, v in want_q.items()}))
         elif rec != want:
             res.fail('C09-record', '%s %s: record %r, protocol prescribes %r (measured qubits %r)' % (label, variant, rec, want, qubits))
+        # a detector compares one stabilizer with itself: the ancilla measurements it refers to are all of one ancilla
+        measured = []
+        for ins in sc.flattened():
+            if ins.name in ('M', 'MZ'):
+                measured.extend(t.value for t in ins.targets_copy())
+            elif ins.name == 'DETECTOR':
+                refs = [measured[len(measured) + t.value] for t in ins.targets_copy() if t.is_measurement_record_target and len(measured) + t.value >= 0]
+                ancs = sorted({q for q in refs if q in anc_idx})
+                if len(ancs) > 1:
+                    res.fail('C09-detector-pairing', '%s %s: a detector combines measurements of different ancillas %r (referenced qubits %r)' % (label, variant, ancs, refs))
+                    break
         if sc.num_detectors != (d - 1) * (cycles + 1):
             res.fail('C09-detector-count', '%s %s: %d detectors, expected %d' % (label, variant, sc.num_detectors, (d - 1) * (cycles + 1)))
         if sc.num_observables != 1:
